@@ -600,7 +600,7 @@ def _reject_analysis(prog, f, pred, memo, parm_objs=None, depth=0):
         if other is None or f.normal_exit_reachable_from(other):
             continue          # the rejecting side must not be able to return normally
         for (c, p) in atoms_of(cn, pol):
-            if pred(ctx, c, p):
+            if pred(ctx, c, p) or any(pred(hc, c2, p2) for (hc, c2, p2) in _predicate_helper_atoms(prog, ctx, c, p)):
                 edge_ok[(b.id, si)] = True
     call_pos = {}
     for n in f.walk():
@@ -655,6 +655,34 @@ def _reject_analysis(prog, f, pred, memo, parm_objs=None, depth=0):
         return any(g < idx for g in call_pos.get(bid, []))
     memo[key] = (bool(IN.get(f.exit, False)), at)
     return memo[key]
+
+
+def _predicate_helper_atoms(prog, ctx, c, pol, depth=0):
+    """the test is a call of a repository predicate `bool g(args) { return <expr>; }`: the atoms of <expr> (under the same
+    polarity), each with a context in which g's parameters stand for the caller's arguments"""
+    c0 = c.strip_all()
+    if depth > 2 or not (c0.is_call() and c0.callee and c0.callee.get("repo")) or c0.k in ("CXXConstructExpr", "CXXTemporaryObjectExpr"):
+        return []
+    g = prog.functions.get(c0.callee.get("usr"))
+    if g is None or c0.callee.get("virt") or g.get("nodes", 0) > 200:
+        return []
+    rets = [x for x in g.walk() if x.k == "ReturnStmt"]
+    if len(rets) != 1 or not rets[0].c or rets[0].c[0].strip().tc != "bool":
+        return []
+    args = c0.call_args()
+    pmap = {}
+    for i, prm in enumerate(g.params):
+        if i < len(args):
+            pmap[prm["n"]] = ctx.objs(args[i]) | ctx.base_objs(args[i])
+    hctx = GuardCtx(prog, g, group_params=False, parm_objs=pmap)
+    obj = c0.call_object()
+    if obj is not None and "cls" in c0.callee and not c0.callee.get("static"):
+        hctx.this_objs = ctx.objs(obj) | ctx.base_objs(obj)
+    out = []
+    for (c2, p2) in atoms_of(rets[0].c[0], pol):
+        out.append((hctx, c2, p2))
+        out.extend(_predicate_helper_atoms(prog, hctx, c2, p2, depth + 1))
+    return out
 
 
 def _pred_granularity(ctx, c, pol):
